@@ -7,7 +7,7 @@
 (*   result {t, ok}    - the watcher reported the outcome to the channel   *)
 (*                       (UpdateState returning nil = ok; UpdateState      *)
 (*                       error or ReportError = failure)                   *)
-(*   rn {t}            - ResolveNow returned                               *)
+(*   rn {t} / rn_ret {t} - before ResolveNow is called / after it returned *)
 (*   close_begin {t} / close_end {t}                                       *)
 (*   quiescent {t}     - every goroutine is durably blocked at instant t   *)
 (* Clauses (weakest reading of the property text):                         *)
@@ -24,8 +24,8 @@
 (***************************************************************************)
 EXTENDS TraceIO
 CONSTANT MinI     \* ms
-VARIABLES l, lastStart, lastEnd, lastOk, fails, credits, reqAfterStart, inLookup, closing, closedAt
-vars == <<l, lastStart, lastEnd, lastOk, fails, credits, reqAfterStart, inLookup, closing, closedAt>>
+VARIABLES l, lastStart, lastEnd, lastOk, fails, credits, reqAfterStart, inLookup, closing, closedAt, rnOpen
+vars == <<l, lastStart, lastEnd, lastOk, fails, credits, reqAfterStart, inLookup, closing, closedAt, rnOpen>>
 Ev == Trace[l]
 
 \* gRPC connection backoff (doc/connection-backoff.md): base 1 s, multiplier 1.6, jitter 0.2, max 120 s; in microseconds
@@ -37,11 +37,11 @@ LoMs(k) == ((BackoffUs(k) * 4) \div 5) \div 1000 - 2      \* rounding slack of t
 HiMs(k) == ((BackoffUs(k) * 6) \div 5) \div 1000 + 2
 
 Init == /\ l = 1 /\ InitRegs /\ lastStart = 0 /\ lastEnd = 0 /\ lastOk = "none" /\ fails = 0 /\ credits = 0
-        /\ reqAfterStart = FALSE /\ inLookup = FALSE /\ closing = FALSE /\ closedAt = 0 - 1
+        /\ reqAfterStart = FALSE /\ inLookup = FALSE /\ closing = FALSE /\ closedAt = 0 - 1 /\ rnOpen = "no"
 
 Reset == /\ Ev.ev = "reset"
          /\ lastStart' = 0 /\ lastEnd' = 0 /\ lastOk' = "none" /\ fails' = 0 /\ credits' = 0
-         /\ reqAfterStart' = FALSE /\ inLookup' = FALSE /\ closing' = FALSE /\ closedAt' = 0 - 1
+         /\ reqAfterStart' = FALSE /\ inLookup' = FALSE /\ closing' = FALSE /\ closedAt' = 0 - 1 /\ rnOpen' = "no"
 
 LookupStart ==
   /\ Ev.ev = "lookup_start"
@@ -52,31 +52,37 @@ LookupStart ==
   /\ Mark(lastOk = "ok" /\ Ev.t < lastStart + MinI, "I_MinInterval", l)
   /\ Mark(lastOk = "fail" /\ Ev.t - lastStart < LoMs(fails), "I_BackoffEarly", l)
   /\ Mark(lastOk = "fail" /\ Ev.t - lastEnd > HiMs(fails), "I_BackoffLate", l)
+  \* a ResolveNow call in progress may have been consumed by this very lookup
+  /\ rnOpen' = (IF rnOpen = "open" THEN "tainted" ELSE rnOpen)
   /\ UNCHANGED <<lastEnd, lastOk, fails, closing, closedAt>>
 
 Result ==
   /\ Ev.ev = "result"
   /\ lastEnd' = Ev.t /\ inLookup' = FALSE
   /\ lastOk' = (IF Ev.ok THEN "ok" ELSE "fail") /\ fails' = (IF Ev.ok THEN 0 ELSE fails + 1)
-  /\ UNCHANGED <<lastStart, credits, reqAfterStart, closing, closedAt>>
+  /\ UNCHANGED <<lastStart, credits, reqAfterStart, closing, closedAt, rnOpen>>
 
-Rn == /\ Ev.ev = "rn" /\ credits' = credits + 1 /\ reqAfterStart' = TRUE
-      /\ UNCHANGED <<lastStart, lastEnd, lastOk, fails, inLookup, closing, closedAt>>
+\* the request counts for the safety clauses from the moment ResolveNow is called, and for the liveness
+\* clause once it returned without any lookup having started in between
+Rn == /\ Ev.ev = "rn" /\ credits' = credits + 1 /\ rnOpen' = "open"
+      /\ UNCHANGED <<lastStart, lastEnd, lastOk, fails, reqAfterStart, inLookup, closing, closedAt>>
+RnRet == /\ Ev.ev = "rn_ret" /\ rnOpen' = "no" /\ reqAfterStart' = (reqAfterStart \/ rnOpen = "open")
+         /\ UNCHANGED <<lastStart, lastEnd, lastOk, fails, credits, inLookup, closing, closedAt>>
 
 CloseBegin == /\ Ev.ev = "close_begin" /\ closing' = TRUE
-              /\ UNCHANGED <<lastStart, lastEnd, lastOk, fails, credits, reqAfterStart, inLookup, closedAt>>
+              /\ UNCHANGED <<lastStart, lastEnd, lastOk, fails, credits, reqAfterStart, inLookup, closedAt, rnOpen>>
 CloseEnd == /\ Ev.ev = "close_end" /\ closedAt' = Ev.t
-            /\ UNCHANGED <<lastStart, lastEnd, lastOk, fails, credits, reqAfterStart, inLookup, closing>>
+            /\ UNCHANGED <<lastStart, lastEnd, lastOk, fails, credits, reqAfterStart, inLookup, closing, rnOpen>>
 
 Quiescent ==
   /\ Ev.ev = "quiescent"
   /\ Mark(~closing /\ ~inLookup /\ lastOk = "ok" /\ reqAfterStart /\ Ev.t >= lastEnd + MinI + 1, "I_LookupFollows", l)
   /\ Mark(~closing /\ ~inLookup /\ lastOk = "fail" /\ Ev.t - lastEnd > HiMs(fails) + 1, "I_RetryFollows", l)
-  /\ UNCHANGED <<lastStart, lastEnd, lastOk, fails, credits, reqAfterStart, inLookup, closing, closedAt>>
+  /\ UNCHANGED <<lastStart, lastEnd, lastOk, fails, credits, reqAfterStart, inLookup, closing, closedAt, rnOpen>>
 
 Other == /\ Ev.ev \in {"step", "panic", "update"}
-         /\ UNCHANGED <<lastStart, lastEnd, lastOk, fails, credits, reqAfterStart, inLookup, closing, closedAt>>
+         /\ UNCHANGED <<lastStart, lastEnd, lastOk, fails, credits, reqAfterStart, inLookup, closing, closedAt, rnOpen>>
 
 Next == /\ l <= TLen /\ l' = l + 1 /\ Consumed(l)
-        /\ (Reset \/ LookupStart \/ Result \/ Rn \/ CloseBegin \/ CloseEnd \/ Quiescent \/ Other)
+        /\ (Reset \/ LookupStart \/ Result \/ Rn \/ RnRet \/ CloseBegin \/ CloseEnd \/ Quiescent \/ Other)
 ====
